@@ -52,7 +52,11 @@ impl Axecutor {
                 s
             }; (set: FLAGS_UNAFFECTED; clear: 0)]
         } else {
-            Ok(())
+            // A 32-bit destination is zero-extended to 64 bits even when the move does not happen,
+            // and the source operand is still read
+            calculate_r_rm![u32; self; i; |d, _| {
+                d
+            }; (set: FLAGS_UNAFFECTED; clear: 0)]
         }
     }
 
